@@ -128,7 +128,18 @@ def two_body(c, rec):
         pert = np.array(c["pert"]).reshape(12, 6)[: k - 1]
         batch = [x0] + [x0 + p * np.array([5, 5, 5, 5e-3, 5e-3, 5e-3]) for p in pert]
         arr = np.column_stack(batch)
-        out = dyn.propagate(t0, t0 + t_end, arr.copy())
+        # the (6, K) batch in the memory layouts callers produce: C order, Fortran order (np.array(states).T), a strided view
+        layout = ("C", "F", "strided")[int(abs(c["pert"][0]) * 1e6) % 3]
+        rec.label("batch_layout:" + layout)
+        if layout == "F":
+            arr_in = np.asfortranarray(arr)
+        elif layout == "strided":
+            wide = np.zeros((6, 2 * k))
+            wide[:, ::2] = arr
+            arr_in = wide[:, ::2]
+        else:
+            arr_in = arr.copy()
+        out = dyn.propagate(t0, t0 + t_end, arr_in)
         if out.shape != (6, k):
             raise Violation("shape", f"batch propagate returned shape {out.shape} for input (6,{k})")
         for j in range(k):
